@@ -24,6 +24,7 @@ reproduced with the Go code): half-ulp rounding of 18–20 digit coefficients
 (`new_wrap_counter`).
 -/
 import Gsu.Proofs.DnumQ4
+import Gsu.Proofs.DnumQ5
 import Gsu.Proofs.DnumStr
 import Gsu.Proofs.Div128
 namespace Gsu.Props.C27
@@ -37,6 +38,12 @@ theorem compare_exact (x y : Dnum) (hx : WF x) (hy : WF y) :
 
 example : WF ⟨1500000000000000, 1, 1⟩ ∧ WF ⟨1550000000000000, -1, 1⟩ := by
   simp only [WF]; decide
+
+/-- compare_exact over ℚ: Compare is the order of the exact rational values
+`val d = sign·coef·10^(exp−16)` -/
+theorem compare_exact_val (x y : Dnum) (hx : WF x) (hy : WF y) :
+    Dnum.compare x y = if val x < val y then -1 else if val y < val x then 1 else 0 :=
+  Dnum.compare_val x y hx hy
 
 /-- Compare is antisymmetric and its `≤` transitive for ALL triples (also zero, infinities) -/
 theorem compare_total_preorder (x y z : Dnum) :
